@@ -214,6 +214,9 @@ func (fr *Frame) specIdent(name string, env *SpecEnv) Val {
 			if phi, ok := ins.(*ssa.Phi); ok && phi.Comment == "rangeindex" {
 				return Val{S: sApp("+", fr.scalar(fr.phiVal(phi, env)), "1"), Typ: tInt}
 			}
+			if phi, ok := ins.(*ssa.Phi); ok && phi.Comment == "rangeint.iter" {
+				return Val{S: fr.scalar(fr.phiVal(phi, env)), Typ: tInt}
+			}
 		}
 		return fr.specErr("$i: no rangeindex phi in loop header")
 	}
@@ -378,11 +381,7 @@ func (fr *Frame) specFieldLoc(base Val, name string) (*Loc, types.Type, bool) {
 			return nil, nil, false
 		}
 		f := su.Field(idx)
-		root := cur.Root
-		if root == nil {
-			root = cur.Elem
-		}
-		cur = fr.fieldLoc(cur.Base, root, cur.Path, f)
+		cur = fr.fieldOf(cur, f)
 		curT = f.Type()
 	}
 	return cur, curT, true
@@ -403,7 +402,7 @@ func (fr *Frame) specField(base Val, name string, env *SpecEnv) Val {
 	if !ok {
 		return fr.specErr("cannot select .%s on %v", name, base.Typ)
 	}
-	if l.Kind == LObj {
+	if l.Kind == LObj || l.Kind == LElemObj {
 		// embedded struct / big.Int: pointer-like view
 		v := Val{Typ: types.NewPointer(ft), Loc: l}
 		if l.Path == "" {
@@ -425,10 +424,13 @@ func (fr *Frame) specIndex(base, idx Val, env *SpecEnv) Val {
 	switch u := base.Typ.Underlying().(type) {
 	case *types.Slice:
 		el := u.Elem()
+		s := fr.scalar(base)
+		if _, isStruct := el.Underlying().(*types.Struct); isStruct && !isBigInt(el) {
+			return Val{Typ: types.NewPointer(el), Loc: &Loc{Kind: LElemObj, Base: sApp("sl_arr", s), Idx: sApp("+", sApp("sl_off", s), fr.scalar(idx)), Root: el, Elem: el}}
+		}
 		h := heapElem(el)
 		fc.regVar(h, arr2Sort(sortOf(el)))
-		s := fr.scalar(base)
-		return Val{S: sSel(sSel(fc.get(st, h), sApp("sl_arr", s)), sApp("+", sApp("sl_off", s), fr.scalar(idx))), Typ: el}
+		return Val{S: sSel(fc.rd(st, h, sApp("sl_arr", s)), sApp("+", sApp("sl_off", s), fr.scalar(idx))), Typ: el}
 	case *types.Map:
 		return Val{S: fr.mapValue(st, base.Typ, fr.scalar(base), fr.scalar(idx)), Typ: u.Elem()}
 	case *types.Pointer:
@@ -436,7 +438,7 @@ func (fr *Frame) specIndex(base, idx Val, env *SpecEnv) Val {
 			el := at.Elem()
 			h := heapElem(el)
 			fc.regVar(h, arr2Sort(sortOf(el)))
-			return Val{S: sSel(sSel(fc.get(st, h), fr.ptrTerm(base)), fr.scalar(idx)), Typ: el}
+			return Val{S: sSel(fc.rd(st, h, fr.ptrTerm(base)), fr.scalar(idx)), Typ: el}
 		}
 	}
 	return fr.specErr("cannot index %v", base.Typ)
@@ -556,7 +558,7 @@ func (fr *Frame) specCall(c *ECall, env *SpecEnv) Val {
 		case *types.Map:
 			fr.regMap(v.Typ)
 			m := fr.scalar(v)
-			row := sSel(fc.get(st, heapMapP(v.Typ)), m)
+			row := fc.rd(st, heapMapP(v.Typ), m)
 			fr.cardFacts(row)
 			return Val{S: sIte(sEq(m, "0"), "0", sApp("card", row)), Typ: tInt}
 		case *types.Basic:
@@ -589,7 +591,7 @@ func (fr *Frame) specCall(c *ECall, env *SpecEnv) Val {
 			if nx, ok := ins.(*ssa.Next); ok {
 				it := fr.scalar(fr.val(nx.Iter))
 				fc.regVar(hIter, arr2Sort("Bool"))
-				return Val{S: sSel(sSel(fc.get(st, hIter), it), arg(0)), Typ: tBool}
+				return Val{S: sSel(fc.rd(st, hIter, it), arg(0)), Typ: tBool}
 			}
 		}
 		return fr.specErr("seen(): loop header has no map iterator")
@@ -675,6 +677,9 @@ func (fr *Frame) specCall(c *ECall, env *SpecEnv) Val {
 		t := tInt
 		if sn.isB {
 			t = tBool
+		}
+		if sn.n == 0 {
+			return Val{S: "u_" + c.Fn, Typ: t}
 		}
 		return Val{S: sApp("u_"+c.Fn, as...), Typ: t}
 	}
